@@ -46,7 +46,7 @@ theorem specU_succ {P : Prog} {rank : Nat → Nat} {f : Nat} (hacy : Acyclic P r
         rcases r3.exact d hd with ⟨d0, hd0, _⟩ | h
         · cases hd0
         · exact h)
-      hstamps hmax (by have := r3.order; simpa using this) (fun rev hrev => by rw [hl] at hrev; cases hrev) rfl rfl rfl rfl hinv.stackB
+      hstamps hmax (by have := r3.order; simpa using this) hmax (fun rev hrev => by rw [hl] at hrev; cases hrev) rfl rfl rfl rfl hinv.stackB
     refine ⟨_, true, fr3.maxTu, Rev.mk v fr3.maxTu s3.epoch fr3.rdeps.reverse, rfl, hinvF, hevF, rfl,
       alookup_ainsert_self _ _ _, rfl, hE, Nat.le_refl _, by rw [← hE]; exact hmax, ?_⟩
     intro r hr; cases hr
@@ -161,7 +161,8 @@ theorem specU_succ {P : Prog} {rank : Nat → Nat} {f : Nat} (hacy : Acyclic P r
         have hv : rev.val = v := (BigE.det hcorr (by rw [hev12.srcs, hev12.maps]; exact hbig)).1
         have hrevN : RevOk P s2 id (Rev.mk rev.val rev.tu s.epoch rev.deps) := by
           refine ⟨by rw [hE2]; exact Nat.le_refl _, Nat.le_trans hok.tu_tv hok.tv_le,
-            fun d hd => Nat.le_trans (hok.stamps d hd) hok.tv_le, hok.tu_stamp, fun _ => ⟨Ro, hcorr⟩, σx, mx, Ro, hbo, ?_, hxo, hoo⟩
+            fun d hd => Nat.le_trans (hok.stamps d hd) hok.tv_le, hok.tu_stamp, fun _ => ⟨Ro, hcorr⟩,
+            fun _ d hd => (hun d hd).toQuiet, σx, mx, Ro, hbo, ?_, hxo, hoo⟩
           intro rd hrd; have := hdfN rd hrd; rw [hE2] at this; exact this
         refine ⟨s2, false, rev.tu, _, rfl, ?_, hev12.mono (fun q h => by
             rcases h with h | h
@@ -230,7 +231,7 @@ theorem specU_succ {P : Prog} {rank : Nat → Nat} {f : Nat} (hacy : Acyclic P r
           obtain ⟨hinvF, hevF⟩ := install hacy s s3
             { s3 with stack := s2.stack, events := (true, id) :: s3.events,
                       derived := ainsert s3.derived id (Rev.mk v fr3.maxTu s3.epoch fr3.rdeps.reverse) }
-            id v R fr3 fr3.maxTu hinv hidB hev3 r3.inv hbig3 r3.reads hexact hstamps hmax (by have := r3.order; simpa using this)
+            id v R fr3 fr3.maxTu hinv hidB hev3 r3.inv hbig3 r3.reads hexact hstamps hmax (by have := r3.order; simpa using this) hmax
             (fun r hr => by rw [hl] at hr; cases hr; exact ⟨hlt, Or.inr ⟨hdne, hC⟩⟩) rfl rfl rfl rfl
             (fun fr hfr => hinv.stackB fr (by rw [← hstack2]; exact hfr))
           refine ⟨_, true, fr3.maxTu, Rev.mk v fr3.maxTu s3.epoch fr3.rdeps.reverse, ?_, hinvF, hevF, hstack2,
@@ -251,7 +252,7 @@ theorem specU_succ {P : Prog} {rank : Nat → Nat} {f : Nat} (hacy : Acyclic P r
             { s3 with stack := s2.stack, events := (true, id) :: s3.events,
                       derived := ainsert s3.derived id (Rev.mk v rev.tu s3.epoch fr3.rdeps.reverse) }
             id v R fr3 rev.tu hinv hidB hev3 r3.inv hbig3 r3.reads hexact hstamps
-            (by rw [hE]; exact Nat.le_trans hok.tu_tv hok.tv_le) (by have := r3.order; simpa using this)
+            (by rw [hE]; exact Nat.le_trans hok.tu_tv hok.tv_le) (by have := r3.order; simpa using this) hmax
             (fun r hr => by rw [hl] at hr; cases hr; exact ⟨hlt, Or.inl ⟨hv.symm, rfl⟩⟩) rfl rfl rfl rfl
             (fun fr hfr => hinv.stackB fr (by rw [← hstack2]; exact hfr))
           refine ⟨_, false, fr3.maxTu, Rev.mk v rev.tu s3.epoch fr3.rdeps.reverse, ?_, hinvF, hevF, hstack2,
